@@ -37,12 +37,14 @@ fn build_direct(n: usize, es: &[E]) -> Graph {
 }
 
 /// through the public loader (CSV files -> Graph::from_files)
-fn build_files(n: usize, es: &[E], dir: &std::path::Path, id: usize) -> Result<Graph, String> {
+/// `dists`: the distance column of the edge list (1.0 everywhere when None)
+fn build_files(n: usize, es: &[E], dir: &std::path::Path, id: usize, dists: Option<&[f64]>) -> Result<Graph, String> {
     let ep = dir.join(format!("c18_edges_{}.csv", id));
     let vp = dir.join(format!("c18_vertices_{}.csv", id));
     let mut s = String::from("edge_id,src_vertex_id,dst_vertex_id,distance\n");
     for (i, (a, b)) in es.iter().enumerate() {
-        s.push_str(&format!("{},{},{},1.0\n", i, a, b));
+        let d = dists.map(|d| d[i]).unwrap_or(1.0);
+        s.push_str(&format!("{},{},{},{:?}\n", i, a, b, d));
     }
     std::fs::write(&ep, s).map_err(|e| e.to_string())?;
     let mut s = String::from("vertex_id,x,y\n");
@@ -85,15 +87,23 @@ struct Spec {
     via_files: bool,
     /// Some((shape, k)): a case of the "deep" family, rebuilt from (shape, n, k)
     deep: Option<(String, usize)>,
+    /// family `loaded`: distance column of the edge list file (zero-length edges included)
+    dists: Option<Vec<f64>>,
 }
 struct Gen {
     specs: Vec<Spec>,
 }
 fn add_case(g: &mut Gen, n: usize, es: Vec<E>, family: &str, via_files: bool, _tmp: &std::path::Path) {
-    g.specs.push(Spec { n, es, family: family.to_string(), via_files, deep: None });
+    g.specs.push(Spec { n, es, family: family.to_string(), via_files, deep: None, dists: None });
 }
 fn add_deep(g: &mut Gen, shape: &str, n: usize, k: usize) {
-    g.specs.push(Spec { n, es: vec![], family: "deep".to_string(), via_files: false, deep: Some((shape.to_string(), k)) });
+    g.specs.push(Spec { n, es: vec![], family: "deep".to_string(), via_files: false, deep: Some((shape.to_string(), k)), dists: None });
+}
+/// family `loaded`: the edge list is written to edges.csv / vertices.csv with the given distances
+/// and read back through Graph::from_files; S still judges against the EDGE LIST of the file
+fn add_loaded(g: &mut Gen, n: usize, es: Vec<E>, dists: Vec<f64>, family: &str) {
+    assert_eq!(es.len(), dists.len());
+    g.specs.push(Spec { n, es, family: family.to_string(), via_files: true, deep: None, dists: Some(dists) });
 }
 fn deal(g: Gen, st: &mut Stream, shards: usize, tmp: &std::path::Path) {
     let total = g.specs.len();
@@ -113,18 +123,19 @@ fn deal(g: Gen, st: &mut Stream, shards: usize, tmp: &std::path::Path) {
             emit_deep(st, shape, sp.n, *k);
             continue;
         }
-        emit_case(st, sp.n, sp.es, &sp.family, sp.via_files, tmp);
+        emit_case(st, sp.n, sp.es, &sp.family, sp.via_files, tmp, sp.dists);
     }
 }
 
-fn emit_case(st: &mut Stream, n: usize, es: Vec<E>, family: &str, via_files: bool, tmp: &std::path::Path) {
+fn emit_case(st: &mut Stream, n: usize, es: Vec<E>, family: &str, via_files: bool, tmp: &std::path::Path, dists: Option<Vec<f64>>) {
     let id = st.next_id();
     let g_coq = format!("(mkG {} {})", n, coq_list(&es, |(s, d)| format!("({},{})", s, d)));
     let wf = es.iter().all(|(s, d)| *s < n && *d < n);
     let es2 = es.clone();
+    let dists2 = dists.clone();
     let tmp2 = tmp.to_path_buf();
     let out = catch(move || -> Result<(Vec<Vec<usize>>, Vec<usize>), String> {
-        let g = if via_files { build_files(n, &es2, &tmp2, id).map_err(|e| format!("LOADERR {}", e))? } else { build_direct(n, &es2) };
+        let g = if via_files { build_files(n, &es2, &tmp2, id, dists2.as_deref()).map_err(|e| format!("LOADERR {}", e))? } else { build_direct(n, &es2) };
         let comps = all_strongly_connected_componenets(&g).map_err(|e| format!("{:?}", e))?;
         let largest = largest_strongly_connected_component(&g).map_err(|e| format!("{:?}", e))?;
         Ok((comps.iter().map(|c| c.iter().map(|v| v.0).collect()).collect(), largest.iter().map(|v| v.0).collect()))
@@ -196,7 +207,19 @@ fn emit_case(st: &mut Stream, n: usize, es: Vec<E>, family: &str, via_files: boo
     if via_files {
         st.count("built_via_Graph::from_files");
     }
-    let desc = json!({"id": id, "family": family, "n": n, "edges": es, "via_files": via_files});
+    if let Some(d) = &dists {
+        st.count("loaded_with_distance_column");
+        if d.iter().any(|x| *x == 0.0) {
+            st.count("loaded_has_zero_length_edge");
+        }
+        if d.iter().any(|x| *x > 0.0 && *x < 1e-6) {
+            st.count("loaded_has_tiny_length_edge");
+        }
+    }
+    let mut desc = json!({"id": id, "family": family, "n": n, "edges": es, "via_files": via_files});
+    if let Some(d) = &dists {
+        desc["dists"] = json!(d);
+    }
     st.case(terms, vec![line], desc);
 }
 
@@ -736,7 +759,8 @@ fn main() {
         }
         let es: Vec<E> = serde_json::from_value(case["edges"].clone()).unwrap();
         let via = case["via_files"].as_bool().unwrap_or(false);
-        emit_case(&mut st, n, es, "replay", via, &tmp);
+        let dists: Option<Vec<f64>> = case.get("dists").and_then(|d| serde_json::from_value(d.clone()).ok());
+        emit_case(&mut st, n, es, "replay", via, &tmp, dists);
         st.finish();
         return;
     }
@@ -807,6 +831,29 @@ fn main() {
     add_case(&mut st, 2, vec![(0, 4), (4, 0), (0, 1)], "dangling_endpoint_from_files", true, &tmp);
     add_case(&mut st, 3, vec![(0, 1), (1, 0), (1, 7)], "dangling_endpoint_from_files", true, &tmp);
     add_case(&mut st, 3, vec![(0, 1), (5, 0), (2, 2)], "dangling_endpoint_from_files", true, &tmp);
+    // ---- loaded: edge lists with a distance column (0.0, 1e-9 and positive lengths) written to CSV and
+    // read back through Graph::from_files; connectivity must not depend on the length of an edge ----
+    {
+        // the witness of seeded C18-12: ring 0->1->2->3->4->0 whose connector 2->3 has length 0
+        let ring: Vec<E> = vec![(0, 1), (1, 2), (2, 3), (3, 4), (4, 0), (4, 5), (5, 5)];
+        add_loaded(&mut st, 6, ring.clone(), vec![1.0, 1.0, 0.0, 1.0, 1.0, 1.0, 1.0], "loaded");
+        add_loaded(&mut st, 6, ring.clone(), vec![1.0, 1.0, 1e-9, 1.0, 1.0, 1.0, 1.0], "loaded");
+        add_loaded(&mut st, 6, ring.clone(), vec![0.0; 7], "loaded");
+        add_loaded(&mut st, 6, ring.clone(), vec![0.01, 2.5, 1.0, 1e-9, 1000.0, 0.5, 0.0], "loaded");
+        add_loaded(&mut st, 3, vec![(0, 1), (1, 0), (1, 2)], vec![0.0, 1.0, 0.0], "loaded");
+        add_loaded(&mut st, 3, vec![(0, 1), (1, 0), (1, 2)], vec![1.0, 0.0, 1.0], "loaded");
+        let lengths = [0.0, 0.0, 1e-9, 0.01, 1.0, 123.456];
+        let mut r0 = Rng::new(a.seed ^ 0x10ad_ed);
+        let n_loaded = if thorough { 400 } else { 40 };
+        for _ in 0..n_loaded {
+            let mut r = r0.fork();
+            let (n, es, _fam) = random_graph(&mut r, 14);
+            let n = n.min(14);
+            let es: Vec<E> = es.into_iter().filter(|(a, b)| *a < n && *b < n).collect();
+            let dists: Vec<f64> = es.iter().map(|_| *r.pick(&lengths)).collect();
+            add_loaded(&mut st, n, es, dists, "loaded");
+        }
+    }
     // ---- deep: one search path of 4500..20000 (fixed sizes up to 300000) vertices, implementation on
     // an ordinary 2 MiB stack in a child process (the model is not run at this size; the verified
     // near-linear checker SccDeep.deep_check judges the implementation's output) ----
